@@ -11,4 +11,42 @@ TEXT = {
   "technique": "Kani/CBMC bounded model checking (SAT) of the real code, fully symbolic header words",
  },
 }
+
+def _t(level, ref, note, tech):
+    return {"level": level, "design_ref": ref, "note": note, "technique": tech}
+
+
+TEXT.update({
+ "C01": _t("Bounded model checking (Kani/CBMC) of the header-peek functions, Header::parse, CharacterString::parse and every typed "
+           "RDATA parser over fully symbolic buffers (all byte values, every cut point, every cursor) within the stated byte "
+           "bounds, plus mirsym symbolic execution of the real Name::parse MIR for every buffer up to the stated length and an "
+           "inductive loop-head step for any length. No-panic and cursor-in-bounds are assertions decided by SAT/SMT.",
+           "DESIGN.md section 3 C01",
+           "Kani harnesses replace Name::parse by its contract stub (discharged by engine M). Time/heap are covered as iteration "
+           "and allocation-request bounds, not measured. Inputs beyond the byte bounds are covered only by the inductive step obligations.",
+           "Kani/CBMC bounded model checking + MIR symbolic execution with z3 (bounded runs and inductive step)"),
+ "C06": _t("Differential symbolic execution: the real Name::parse MIR and an RFC 1035 4.1.4 reference decoder are executed on the "
+           "same fully symbolic buffer and start offset; z3 is asked for any input on which accept/reject, any label range or the "
+           "resume position differ. Exhaustive over all 256^L buffers for each length up to the bound.",
+           "DESIGN.md section 3 C06",
+           "Trusted: rustc MIR dump, the mirsym interpreter and std models, z3, the reference decoder. Paths hitting the loop bound are outside the claim.",
+           "MIR symbolic execution + z3, differential against an RFC reference decoder"),
+ "C09": _t("Kani/CBMC over all TTL words, versions and named rcodes for the EDNS TTL packing (encode, decode, OPT::parse fixed part) against "
+           "the RFC 6891 6.1.3 layout written independently.", "DESIGN.md section 3 C09",
+           "Wire-level OPT placement/ARCOUNT obligations are engine-M work; this check decides the bit layout and the fixed part of OPT parsing.",
+           "Kani/CBMC bounded model checking (SAT), fully symbolic TTL words"),
+ "C17": _t("Kani/CBMC: Label::new accepts exactly the label grammar of the statement for every byte string of length 0..6 and 60..66 "
+           "(all byte values), oracle written independently.", "DESIGN.md section 3 C17",
+           "Name-level obligations (dot splitting, 255 limit, display round trip, suffix algebra) are engine-M work.",
+           "Kani/CBMC bounded model checking (SAT) of Label::new vs independent grammar oracle"),
+ "C18": _t("Kani/CBMC over the full 16-bit code space (symbolic) for TYPE/CLASS/QTYPE/QCLASS conversions against the IANA table generated "
+           "from the RFC schema, match_qtype/match_qclass over all supported pairs, type_code() of a minimal value of each of the 42 variants "
+           "and of parsed NULL/unknown/empty records.", "DESIGN.md section 3 C18",
+           "AXFR/IXFR/MAILA are outside the property's quantifier. Name::parse stubbed in the parsed-record harness.",
+           "Kani/CBMC bounded model checking (SAT), symbolic 16-bit codes"),
+ "C19": _t("Kani/CBMC: character-string construction accepts exactly lengths <= 255 (every length 0..300) and the length octet written "
+           "is exact.", "DESIGN.md section 3 C19",
+           "TXT chunking / attribute obligations are engine-M work.",
+           "Kani/CBMC bounded model checking (SAT), symbolic lengths"),
+})
 NA_REASON = {}
